@@ -172,6 +172,56 @@ pub fn gen_f32_corner(r: &mut Rng) -> Inst {
     Inst { courses, parts, rooms: Some(vec![room, second]) }
 }
 
+/// Third f32 corner: the shrink size computed by the inverse formula does not fit the room by the
+/// forward formula (`floor((25 - 0.7) / 2.7) = 9` but `ceil(0.7 + 2.7 * 9) = 26 > 25`), so the same
+/// shrink constraint is proposed again for an already shrunk course.
+pub fn gen_f32_shrink_does_not_fit(r: &mut Rng) -> Inst {
+    let triples: [(f32, f32, usize, usize); 2] = [(2.7, 0.7, 25, 9), (1.7, 0.1, 29, 17)];
+    let (f, off, room, s) = triples[[0usize, 0, 0, 1][r.usize(4)]];
+    let np = s + 1 + r.usize(3);
+    let courses = vec![
+        CourseDump { index: 0, dbid: 100, name: "A".into(), num_min: r.usize(3), num_max: np + 2, instructors: vec![],
+            room_factor: f, room_offset: off, fixed_course: r.chance(1, 3), hidden_participant_names: vec![] },
+        CourseDump { index: 1, dbid: 101, name: "B".into(), num_min: 0, num_max: r.usize(3), instructors: vec![],
+            room_factor: 1.0, room_offset: 0.0, fixed_course: false, hidden_participant_names: vec![] },
+    ];
+    let parts: Vec<ParticipantDump> = (0..np)
+        .map(|i| ParticipantDump { index: i, dbid: 1000 + i, name: format!("p{}", i), choices: vec![(0, 0), (1, 1)] })
+        .collect();
+    Inst { courses, parts, rooms: Some(vec![room, 3]) }
+}
+
+/// Many courses (24–30) with a room conflict among the LARGEST ones, so that the selection range of
+/// the room stage starts beyond index 17.
+pub fn gen_many_courses_rooms(r: &mut Rng) -> Inst {
+    let nc = 24 + r.usize(7);
+    let nbig = 1 + r.usize(4);
+    let mut courses: Vec<CourseDump> = (0..nc)
+        .map(|i| CourseDump { index: i, dbid: 100 + i, name: format!("c{}", i), num_min: r.usize(2), num_max: 3, instructors: vec![],
+            room_factor: 1.0, room_offset: 0.0, fixed_course: false, hidden_participant_names: vec![] })
+        .collect();
+    let mut parts: Vec<ParticipantDump> = vec![];
+    // the first `nbig` courses are wanted by 3 people, the others by 1–2
+    for c in 0..nc {
+        let want = if c < nbig { 3 } else { 1 + r.usize(2) };
+        for _ in 0..want {
+            let other = r.usize(nc);
+            let mut ch = vec![(c, 0u32)];
+            if other != c {
+                ch.push((other, 1));
+            }
+            let i = parts.len();
+            parts.push(ParticipantDump { index: i, dbid: 1000 + i, name: format!("p{}", i), choices: ch });
+        }
+    }
+    if r.chance(1, 3) {
+        let c = r.usize(nc);
+        courses[c].fixed_course = true;
+    }
+    let rooms = vec![2usize; nc - r.usize(2)];
+    Inst { courses, parts, rooms: Some(rooms) }
+}
+
 /// An instance aimed at the other f32 corner: `factor * n` is an exact integer in f32 although the
 /// f32 factor, read as a real number, lies slightly above its decimal value (1.2f32 * 5 = 6.0 but
 /// 1.2f32 as f64 * 5 = 6.0000002). Course A can become exactly `n` people; B stays small, so the
